@@ -33,12 +33,12 @@ func propData(tag string, slot uint64) *rules.SignBeaconProposalData {
 }
 
 type pentry struct {
-	key    [48]byte
-	P      int64
-	hist   bool
-	slotH  uint64
-	slot   uint64
-	req    *rules.SignBeaconProposalData
+	key   [48]byte
+	P     int64
+	hist  bool
+	slotH uint64
+	slot  uint64
+	req   *rules.SignBeaconProposalData
 }
 
 func mkPEntry(ctx context.Context, svc *standardrules.Service, k int) *pentry {
